@@ -102,7 +102,17 @@ class Client:
                 from pyvc.abssets import HavocState
                 built[a] = HavocState(f'{cls}.{a}')
             elif v0 is None:
-                built[a] = Opaque(f'{cls}.{a}')
+                # None at construction: the annotation of the attribute says what it holds later
+                ann = constructor_annotation(r, ci, a)
+                isnone = z3.Bool(f'{a}0_is_None')
+                if 'float' in ann:
+                    built[a] = GV.make([(isnone, None), (z3.Not(isnone), ex.fresh(f'{a}0', 'float'))])
+                elif 'int' in ann:
+                    built[a] = GV.make([(isnone, None), (z3.Not(isnone), ex.fresh(f'{a}0'))])
+                elif 'bool' in ann:
+                    built[a] = GV.make([(isnone, None), (z3.Not(isnone), Sym(z3.Bool(f'{a}0'), 'bool'))])
+                else:
+                    built[a] = Opaque(f'{cls}.{a}')
         self.attr0 = dict(built)
         self.g1 = []          # (description, z3 Bool): obligations "CLOSED is never left" raised at writes of _state
         self.lock.held_by_other = z3.Bool('connect_lock_held_by_another_task')
@@ -144,6 +154,28 @@ class Client:
 
 
 from pyvc.symex import assigned_outside_constructor
+
+
+def constructor_annotation(r, ci, attr):
+    """Source text of the annotation of `self.<attr>: T = ...` in the constructor of the class or of a base ('' if none)."""
+    import ast
+    seen, todo = set(), [ci]
+    while todo:
+        c = todo.pop()
+        if c is None or c.name in seen:
+            continue
+        seen.add(c.name)
+        m = c.methods.get('__init__')
+        if m is not None:
+            for n in ast.walk(m.node):
+                if isinstance(n, ast.AnnAssign) and isinstance(n.target, ast.Attribute) and isinstance(n.target.value, ast.Name) and n.target.value.id == 'self' and n.target.attr == attr:
+                    return ast.unparse(n.annotation)
+        for b in c.bases:
+            try:
+                todo.append(r.cls(c.module, b))
+            except Exception:  # noqa
+                pass
+    return ''
 
 
 def default_await(client, reads=None, allow_cancel=True):
@@ -577,6 +609,10 @@ class ReceiveLoopTask(MethodTask):
 
     def check(self, p, st, add):
         c, w = st['client'], st['client'].world
+        # frame: connect() owns the reference to the running receive task (it cancels what it finds there before it starts a
+        # new loop); the loop itself never writes it
+        add('receive-loop-leaves-the-task-reference-alone', c.obj.attrs.get('_receive_task') is c.attr0.get('_receive_task'),
+            'the receive loop overwrites self._receive_task: a loop that ends late clears the reference to its successor, which is then never cancelled (two receive paths)')
         if p.kind == 'raise':
             add('receive-loop-ends-only-by-cancellation', p.exc_name() == 'CancelledError', f'raises {p.exc_name()}')
             return
